@@ -400,12 +400,25 @@ def execMem (key src : Val) : Res Val :=
     if keyModelled k && items.all isPairVal && typeOf key == k then
       .ok (.bool (_root_.Impl.Coll.Map.contains valEq (items.map toKV) key))
     else .stuck
+  -- `BigMapType.contains` is `MapType.contains`: `self.get(key, dup=False) is not None`; `BigMapType.get` searches `self` (the
+  -- items, then the removed keys with value `None`) and, for a key found in neither, asks the context — which holds nothing for
+  -- the temporary id of a map created in the run: `None`
+  | .bigMap k _ items =>
+    if keyModelled k && items.all isPairVal && typeOf key == k then
+      .ok (.bool (_root_.Impl.Coll.Map.contains valEq (items.map toKV) key))
+    else .stuck
   | _ => .stuck
 
 /-- GET after `pop2`: `MapType.get` then `OptionType.none(src.args[1])` / `from_some` -/
 def execGet (key src : Val) : Res Val :=
   match src with
   | .map k v items =>
+    if keyModelled k && items.all isPairVal && typeOf key == k then
+      match _root_.Impl.Coll.Map.get valEq (items.map toKV) key with
+      | some y => .ok (.some y)
+      | none => .ok (.none v)
+    else .stuck
+  | .bigMap k v items =>
     if keyModelled k && items.all isPairVal && typeOf key == k then
       match _root_.Impl.Coll.Map.get valEq (items.map toKV) key with
       | some y => .ok (.some y)
@@ -420,6 +433,15 @@ def mapUpdate (k v : Ty) (items : List Val) (key : Val) (val : Option Val) : Res
     .ok (r.1, .map k v (r.2.map ofKV))
   else .stuck
 
+/-- `BigMapType.update` on a map created in the run: `prev_val = self.get(key, dup=False)` is found among the items or is
+`None`, so the branches are those of `MapType.update` (replace / filter out / `sorted(items + [(key, val)])` / unchanged); the
+bookkeeping of `removed_keys` does not show in any later answer.  Result: `type(self)(items=…, ptr=self.ptr, …)` -/
+def bigMapUpdate (k v : Ty) (items : List Val) (key : Val) (val : Option Val) : Res (Option Val × Val) :=
+  if keyModelled k && items.all isPairVal && typeOf key == k then
+    let r := _root_.Impl.Coll.Map.update valEq valLt (items.map toKV) key val
+    .ok (r.1, .bigMap k v (r.2.map ofKV))
+  else .stuck
+
 /-- UPDATE after `pop3`: a `bool` selects `SetType.add` / `remove`, an `option` goes to `MapType.update` -/
 def execUpdate (key val src : Val) : Res Val :=
   match val, src with
@@ -429,6 +451,8 @@ def execUpdate (key val src : Val) : Res Val :=
     else .stuck
   | .none _, .map k v items => (mapUpdate k v items key none).bind fun r => .ok r.2
   | .some y, .map k v items => (mapUpdate k v items key (some y)).bind fun r => .ok r.2
+  | .none _, .bigMap k v items => (bigMapUpdate k v items key none).bind fun r => .ok r.2
+  | .some y, .bigMap k v items => (bigMapUpdate k v items key (some y)).bind fun r => .ok r.2
   | _, _ => .stuck
 
 /-- GET_AND_UPDATE after `pop3`: `(res, dst)`; `res` is pushed last -/
@@ -438,6 +462,10 @@ def execGetAndUpdate (key val src : Val) : Res (Val × Val) :=
     (mapUpdate k v items key none).bind fun r => .ok ((match r.1 with | some p => Val.some p | none => Val.none v), r.2)
   | .some y, .map k v items =>
     (mapUpdate k v items key (some y)).bind fun r => .ok ((match r.1 with | some p => Val.some p | none => Val.none v), r.2)
+  | .none _, .bigMap k v items =>
+    (bigMapUpdate k v items key none).bind fun r => .ok ((match r.1 with | some p => Val.some p | none => Val.none v), r.2)
+  | .some y, .bigMap k v items =>
+    (bigMapUpdate k v items key (some y)).bind fun r => .ok ((match r.1 with | some p => Val.some p | none => Val.none v), r.2)
   | _, _ => .stuck
 
 /-- `execute_hash` after `pop1`: `assert_type_equal(BytesType)`, `BytesType.from_value(hash_digest(bytes(a)))` -/
@@ -882,6 +910,8 @@ def stepExt (env : Env) (i : Instr) (s : Stack) : Res Stack :=
   | .SELF ep t => pure (s.push (.contract t (addrFromValue (env.self ++ 37 :: ep))))
   | .TRANSFER_TOKENS => do let (a, b, c, s) ← s.pop3; let r ← execTransferTokens env a b c; pure (s.push r)
   | .CHECK_SIGNATURE => do let (a, b, c, s) ← s.pop3; let r ← execCheckSignature env a b c; pure (s.push r)
+  -- `res = BigMapType.empty(key_type, val_type)`; `res.attach_context(context)` gives it a temporary id
+  | .EMPTY_BIG_MAP k v => pure (s.push (.bigMap k v []))
   | i => do let (a, s) ← s.pop1; let r ← execUn env i a; pure (s.push r)
 
 /-- further instructions without sub-programs (kept apart from `step` so that either pattern match stays small) -/
